@@ -51,7 +51,7 @@ PROPS = {
                       "and event stamps only, data races by the Go race detector on the same tapes.",
         "level_note": "Trusts the simulator, the synctest clock and ThreadSanitizer; 'completed' is defined from observable events only (body thread ended, an outcome-returning deref or a true future-done? returned earlier).",
         "rule": "one run = one seeded tape: a creator thread defines 1-2 futures (body: value, nil, false, collection, throw, failing builtin, context-aware gate, context-ignoring gate, "
-                "gate then throw, sleep, busy loop, future-call of a fn, nested future, deref of the other future, bodies that wait or sleep inside a try whose handler returns; in a third of the two-future runs the second future is started by the first "
+                "gate then throw, sleep, busy loop, future-call of a fn, nested future, deref of the other future, bodies that wait or sleep inside a try whose handler returns, bodies whose error has passed through two nested futures; in a third of the two-future runs the second future is started by the first "
                 "one's body and outlives it), 1-4 caller threads x 1-5 operations (deref with/without deadline, future-done?, future-cancelled?, future-cancel, naps), a gatekeeper opening "
                 "gates at scheduler-chosen instants, now and then 130-170 futures blocked at a gate are created first, in a quarter of the runs a deadline on the creator's context, sometimes one that has already passed when the future is created; code that "
                 "uses TryLock is run in contention mode (another thread is parked holding the lock when the attempt is made); step cost 0, 1us or 50us. Oracles: obligations O1-O6 over the history, a deref's wake-up "
@@ -73,10 +73,10 @@ PROPS = {
                       "prepared fresh environment (refinement), probes check that no local name is visible at top level, readers check all-or-nothing monotone visibility "
                       "of a redefined global, and the Go race detector runs on the same tapes for the no-data-race clause.",
         "level_note": "Trusts the simulator and ThreadSanitizer; the solo run is the reference (it is the same interpreter); env critical sections are atomic in the simulation, their absence is a matter for the race oracle.",
-        "rule": "one run = one seeded tape: 2-5 programs of 2-5 fragments drawn from 65 templates (let, shadowing, tail/non-tail recursion under thread-specific global names, "
+        "rule": "one run = one seeded tape: 2-5 programs of 2-5 fragments drawn from 73 templates (let, shadowing, tail/non-tail recursion under thread-specific global names, "
                 "closures over local atoms, own and library macros, memoize, try/catch, defs, def inside thunks and future bodies, derivation from shared vector/map/list/closure/macro, "
                 "map/apply/reduce/update-in, futures incl. ones started in a non-final let binding, gensym names used as private globals, a local helper defined after a future was started, rest lists of variadic callbacks that outlive map, memoized closures with the "
-                "same text and different captured values in every thread, a global redefined from its own value, shared atoms printed with str/pr-str, an atom of the program's own printed while a future of the program updates it, futures cancelled in the middle of a computation, tail loops whose turns start futures or make closures, first calls of shared functions whose bodies contain macro calls), "
+                "same text and different captured values in every thread, a global redefined from its own value, shared atoms printed with str/pr-str, an atom of the program's own printed while a future of the program updates it, futures cancelled in the middle of a computation, tail loops whose turns start futures or make closures, first calls of shared functions whose bodies contain macro calls, keywords made at run time, a macro whose expansion closes over its parameter, the shared macro used while another thread defines it again), "
                 "same local names in every thread with thread-specific values; optional writer redefining g through 2-6 distinct structured values with 1-2 readers; optional prober "
                 "reading local and temporary names at top level. Statement-level yields in lib/concurrent/concurrent.go and env/env.go. "
                 "non-trivial = at least 2 tasks and at least 4 token switches; distinct = distinct hash of the (task, hook point) switch sequence",
@@ -93,11 +93,11 @@ PROPS = {
                       "sequential (empty schedule space: the honest scope note of DESIGN.md §5.5 applies), half run 2-4 simulated caller threads that extend the same parents under "
                       "a seeded schedule, with the Go race detector on the same tapes.",
         "level_note": "Trusts the simulator, the canonical printer and ThreadSanitizer. No model of what an operation should return is used (that is C13).",
-        "rule": "one run = one seeded tape: 22 seed values (reader-built vector and quoted list, conj/range results with spare capacity, nested maps and vectors, sets, vec of a quoted list, "
-                "empty vector and list, drained vectors that keep capacity) and 3-40 operations from 74 kinds (conj, concat incl. empty leading arguments, cons, assoc, dissoc incl. several keys "
+        "rule": "one run = one seeded tape: 25 seed values (reader-built vector and quoted list, conj/range results with spare capacity, nested maps and vectors, sets, vec of a quoted list, "
+                "empty vector and list, drained vectors that keep capacity) and 3-40 operations from 87 kinds (conj, concat incl. empty leading arguments, cons, assoc, dissoc incl. several keys "
                 "with absent ones, subvec, rest, vec, seq, take/drop families, merge, rename-keys, with-meta, assoc-in/update/update-in through maps, vectors and mixed nesting, apply, map, "
                 "quasiquote splices, closures, macros, catch/let variables named like pool values, variadic callbacks that retain their rest list inside map/apply/reduce, closures made under apply/map/swap! that outlive the call, error objects wrapping a pool map turned into "
-                "hash-maps, assoc-in/update-in paths ending in empty maps that are values of their own, binary values from unbase64, functions defined with a pool map as metadata, json-decode with pool values as prototype, merge with a smaller left operand), parents chosen with a bias "
+                "hash-maps, assoc-in/update-in paths ending in empty maps that are values of their own, binary values from unbase64, functions defined with a pool map as metadata, json-decode with pool values as prototype or as binary document, merge with a smaller left operand, values taken out of other collections, keys/vals, constructors through apply, error objects wrapping pool sequences rendered as text), parents chosen with a bias "
                 "to re-extend the previous parent. Oracles: snapshot of every value re-read after every operation; prefix stability of snapshots taken inside callbacks; race detector. "
                 "non-trivial = some parent extended at least twice; distinct = distinct (operation sequence, interleaving) hash",
         "assumptions": COMMON_ASSUMPTIONS + ["registration-time mutation of _PACKAGES_ by call.Call is outside the statement (not a builtin, special form, macro expansion or splice)"],
@@ -119,7 +119,7 @@ PROPS = {
                 "and constants, sleeping loop, long sleep, swap! loop, apply, deref of a body ignoring cancellation, deref of a pending future shared with a body started by an earlier evaluation "
                 "under an unrelated context; wrapped in map/reduce/swap!/update callbacks, eval, future deref, do/let/if, try/catch/finally nests to depth 4 whose handlers and finally bodies loop, "
                 "sleep, return, rethrow; plus handler and finally probes, programs that dereference cancelled futures, bursts of ~300 futures, non-tail recursions that are thousands of frames "
-                "deep when the context ends, swap! through builtins whose callback reads the atom, nested handler probes (the inner handler runs, the outer one does not), handler probes in tail position after a prefix that uses up part of the deadline, status calls on finished futures, bodies that fail at "
+                "deep when the context ends, swap! through builtins whose callback reads the atom, nested handler probes (the inner handler runs, the outer one does not), handler probes in tail position after a prefix that uses up part of the deadline, status calls on finished futures, handler probes evaluated by a future's body, a swap! whose install attempts fail for ever, bodies that fail at "
                 "once with an ordinary error so that it is the handler the cancellation cuts short, and def/defmacro forms whose value expression never finishes), a step cost of 1us..1ms with optional jitter, and a cancellation (kind x instant, log-uniform up to ~32k steps). "
                 "non-trivial = the context ended while the program was running; distinct = distinct (program text, cancellation kind, instant, interleaving) hash",
         "assumptions": COMMON_ASSUMPTIONS + ["the word 'timeout' in the error message identifies a timeout error"],
@@ -137,7 +137,7 @@ PROPS = {
         "level_note": "Trusts the reference model (about 80 lines) and the canonical printer. Faults inside finally bodies are not generated (the statement does not say what they do). Single-threaded: no race binary.",
         "rule": "one run = one seeded try-nest program (depth <= 5, up to ~60 nodes: probe!/probe-raw! sites, macro-expansion-time probes and throws, trace! effects incl. the value the catch "
                 "symbol resolves to in handlers, finally bodies and after the form, throws of 24 kinds of values including code-looking lists and symbols and collections that contain them, throws raised inside a swap! update function,  body-less try forms, calls through 1-3 "
-                "function levels, apply, a Go builtin that calls back and wraps the callback's error in an error of its own, callbacks of update / update-in / map / swap! / reduce, the value expression of a macro definition, user and library macros, let shadowing the catch symbol) executed under the fault-free plan, EVERY single-fault plan (site x {error, %w-wrapped error, "
+                "function levels, apply, a Go builtin that calls back and wraps the callback's error in an error of its own, callbacks of update / update-in / map / swap! / reduce, closures that escape a handler, and now and then one evaluation that catches ten thousand failures in a row, the value expression of a macro definition, user and library macros, let shadowing the catch symbol) executed under the fault-free plan, EVERY single-fault plan (site x {error, %w-wrapped error, "
                 "panic with an error - for raw builtins where an enclosing try body recovers it -, panic with a non-error value, lisp value thrown from Go, budget timeout: the probe waits on the "
                 "fake clock until the context it was handed ends}) and 2 (thorough: 12) drawn multi-fault plans, each under a one-hour simulated deadline. evaluations counts runs (programs); "
                 "plans_executed counts executions. non-trivial = the program has at least one probe site and a fault actually fired; distinct = distinct program text",
@@ -154,7 +154,7 @@ PROPS = {
                       "same program run without a stepper in an identically prepared environment; every (form, scope) handed to the callback is compared with the evaluation step "
                       "that follows. Now and then all command sequences up to length 4 (thorough: 5) are enumerated for the program at hand.",
         "level_note": "Trusts the stepper-less run as reference (same interpreter). No scheduler and no clock are involved: the simulated party is the debugger. Single-threaded: no race binary.",
-        "rule": "one run = one seeded program (try-nest with 0-1 injected builtin failure - including the budget timeout of a try body under a one-hour simulated deadline and the cancellation of the whole evaluation by the host -, or 1-3 of 74 templates incl. "
+        "rule": "one run = one seeded program (try-nest with 0-1 injected builtin failure - including the budget timeout of a try body under a one-hour simulated deadline and the cancellation of the whole evaluation by the host -, or 1-3 of 80 templates incl. "
                 "error-inspecting handlers, uncaught errors, map/vector literals with one effect, forms longer than ten items, evaluator panics that cross map/apply/reduce/swap! before they reach try, a "
                 "tail loop of ~4000 iterations, literal nodes evaluated several times, let init forms reading the binding they shadow, quasiquote templates with unquotes inside vectors) x one seeded command tape of up to 120 commands with a drawn bias and tail command, x one run under the debugger package's own engine in "
                 "its headless run-and-trace mode, followed by a stepper-less re-run of the same source; about one run in twelve additionally enumerates every command sequence of length <= 4 "
